@@ -81,13 +81,18 @@ def operand_palette(OPC):
     return [0x00, 0x01, 0x7F, 0x80, 0xFF] + named[:0], named
 
 
-def candidates(pre, opcode, OPC, thorough=True):
-    """Byte strings to try for one (prefix, opcode): every selector/mode byte x palette tails."""
+THIN_B1 = (0x00, 0x01, 0x02, 0x03, 0x04, 0x05, 0x06, 0x07, 0x0C, 0x10, 0x20, 0x24, 0x27, 0x30, 0x34, 0x37, 0x42, 0x45, 0x68, 0x7F,
+           0x80, 0x84, 0x87, 0xA4, 0xC0, 0xC4, 0xC7, 0xE4, 0xEC, 0xED, 0xEE, 0xFB, 0xFF)
+
+
+def candidates(pre, opcode, OPC, thorough=True, thin=False):
+    """Byte strings to try for one (prefix, opcode): every selector/mode byte x palette tails
+    (thin: 33 representative first operand bytes instead of all 256)."""
     pal, named = operand_palette(OPC)
     lead = ([pre] if pre is not None else []) + [opcode]
     tails = []
     rests = ((0x00, 0x00, 0x00, 0x00), (0x01, 0x7F, 0x80, 0x0F), (0xFF, 0xFF, 0xFF, 0xFF), (0x80, 0x01, 0xFF, 0x02))
-    for b1 in range(256):
+    for b1 in (THIN_B1 if thin else range(256)):
         for rest in (rests if thorough else rests[0:2]):
             tails.append((b1,) + rest)
     for n in (named if thorough else named[::5]):
@@ -158,7 +163,7 @@ def unit(unit):
     seen = {}
     results = []
     evals = 0
-    cands = candidates(pre, opcode, OPC, unit.get("thorough", False))
+    cands = candidates(pre, opcode, OPC, unit.get("thorough", False), unit.get("thin", False))
     for b in cands:
         info = arch.get_instruction_info(b, addr)
         if info is None:
